@@ -347,6 +347,18 @@ pub fn c17(a: &Args) {
                 run_font(&mut out, &format!("default-name-other-glyphs-{slot}"), "default-font", "icy", &imp, None, slot, slot as u64);
                 n_font += 1;
             }
+            // names beyond ASCII (string records are length-prefixed: bytes and characters differ) and of extreme length
+            for (ni, nm) in ["f\u{f6}nt", "\u{df}", "\u{65e5}\u{672c}\u{8a9e}\u{30d5}\u{30a9}\u{30f3}\u{30c8}", "a\u{2068}b\u{2069}", "", "x"].iter().enumerate() {
+                let mut f = imp.clone();
+                f.name = (*nm).to_string();
+                run_font(&mut out, &format!("name-class-{ni}"), "font-name", "icy", &f, None, [0usize, 2, 300][ni % 3], ni as u64);
+                n_font += 1;
+            }
+            let long = "n".repeat(300);
+            let mut f = imp.clone();
+            f.name = long;
+            run_font(&mut out, "name-class-long", "font-name", "icy", &f, None, 1, 0);
+            n_font += 1;
             let mut renamed = def.clone();
             renamed.name = "my copy".to_string();
             for slot in [0usize, 2] {
